@@ -25,19 +25,39 @@ RULE = (
     "length; for lengths 7 and 8 (trailer overlaps the version octet) additionally every sequence-control word that makes "
     "the trailer read as PUS-C (solved, not searched). Distinct non-trivial: a vector not produced by an earlier part of "
     "the enumeration (background vector counted once; payloads equal to a background payload counted once); a forged "
-    "buffer counts only when its octet 6 carries version nibble 2 (otherwise any decoder refuses it for the version)."
+    "buffer counts only when its octet 6 carries version nibble 2 (otherwise any decoder refuses it for the version). "
+    "Conjunctions: every shaped data length x every edge value of every field (d=1 under each length); every subset of the five "
+    "optional constructor arguments omitted (documented defaults), twice in a row; the decoder is also handed a bytearray followed "
+    "by neighbouring octets which the caller overwrites afterwards. "
+    "Histories (engine H, stateless): ONE telecommand object, started in each of 4 ways (constructor, unpack, from_sp_header, "
+    "from_composite_fields) from each of K backgrounds, is driven through EVERY sequence of D events of the menu {pack(), "
+    "pack(recalc_crc=False), calc_crc(), to_space_packet(), construct+pack+view+decode of an unrelated telecommand, apid= (2 values), "
+    "seq_count= (2), source_id= (2), app_data= (shorter, equal, longer)} = 14 events; a plain dict holds the values last set; after the "
+    "start and after every event: every accessor, data length, packet_len, == (both directions) with a freshly constructed telecommand of "
+    "the model's values; every octet string a reading event returns (pack, the space-packet view) = ref/pus.py of the model; crc16 "
+    "right after the events that calculate it; pack(recalc_crc=False) judged only while no setter ran since the last CRC calculation "
+    "(its documented precondition). A history is distinct by (background, start, event sequence). "
+    "Independence (mc.alias.Keeper): every object the library hands out in the vector scripts (constructed / decoded telecommand, decoded "
+    "secondary header, from_sp_header / from_composite_fields objects, the very bytearray pack() returned, the space-packet views) is held "
+    "and observed again (accessors + pack()) after the rest of its own script and after the complete script of the next vector of the "
+    "enumeration (which differs in at least one field value); a change is a violation whose replay is the shard."
 )
 BOUNDS = {
     "quick": "K=4 backgrounds, Kp=2 payload backgrounds; space-packet view + check_pus_crc on: every value of the 8/11/4-bit "
              "fields, walk(n) and every 17th value of the 14/16-bit fields, a strength-5 covering array of the edge product "
              "(index sum = 0 mod 8: 32 768 vectors), payloads of length <= 1 and the 2-octet payloads with (b0+b1) mod 16 = 0, "
-             "all shaped lengths; reject: seq count in walk(14) (34 values), solved trailers ack in edge(4) x service in edge(8)",
-    "thorough": "K=8 backgrounds, Kp=4, space-packet view + check_pus_crc on every vector; reject: seq count in walk(14) U every 61st value (302 values), solved trailers ack in full(4) x service in walk(8)",
+             "all shaped lengths; reject: seq count in walk(14) (34 values), solved trailers ack in edge(4) x service in edge(8); "
+             "histories: D=3 (2 744 per start, 16 starts); independence: all vector shards",
+    "thorough": "K=8 backgrounds, Kp=4, space-packet view + check_pus_crc on every vector; reject: seq count in walk(14) U every 61st value (302 values), solved trailers ack in full(4) x service in walk(8); "
+                "histories: D=4 (38 416 per start, 32 starts); independence: all vector shards",
 }
 ASSUMPTIONS = [
     "ref/pus.py, ref/ccsds.py, ref/crc16.py transcribe ECSS-E-ST-70-41C / CCSDS 133.0-B-2 (bound to the repository's expected vectors by selftest/st_ref_pus.py)",
     "two arbitrary non-edge values in two different fields at once are only covered in the K backgrounds",
     "application data between 18 and 65527 octets is represented by lengths 255, 256, 257 and 1024 only",
+    "histories longer than D events, and setter values other than the two or three per property, are not explored; attributes of the component "
+    "objects (sp_header.*, pus_tc_sec_header.*) are not written directly - only the setters the PusTc class itself offers",
+    "independence is observed across adjacent vectors of the fixed enumeration order (ring of 2 scripts), not across arbitrary pairs",
 ]
 
 AXES = ("service", "subservice", "apid", "seq_count", "source_id", "ack_flags")
@@ -87,6 +107,9 @@ def shards(tier):
     for bg in range(_kp(tier)):
         items.append({"kind": "lengths", "bg": bg})
     items.append({"kind": "oversize"})
+    items.append({"kind": "defaults", "k": 8})
+    for axis in range(6):
+        items.append({"kind": "len-x-edge", "axis": axis})
     for kk in range(_k(tier)):
         for mode in H_MODES:
             if tier == "quick":
@@ -191,7 +214,7 @@ def _tc_script(rec: Rec, case, f, spec, nontrivial, routes, deep, keeper):
         if keeper is not None:
             keeper.hold(subject, obj, obs, case)
 
-    rec.case(nontrivial, ops=10 + (3 if deep else 0) + (6 if routes else 0))
+    rec.case(nontrivial, ops=10 + (3 if deep else 0) + (9 if routes else 0))
     if deep:
         rec.count("vectors_with_space_packet_view_and_check_pus_crc")
     if len(ref) <= 24 and any(f):
@@ -273,6 +296,15 @@ def _tc_script(rec: Rec, case, f, spec, nontrivial, routes, deep, keeper):
             sh = m.PusTcDataFieldHeader.unpack(ref[6:])
             if (sh.service, sh.subservice, sh.source_id, int(sh.ack_flags)) != (svc, sub, src, ack) or bytes(sh.pack()) != ref[6:11]:
                 bad("decode/PusTcDataFieldHeader.unpack/fields", (sh.service, sh.subservice, sh.source_id, int(sh.ack_flags)), (svc, sub, src, ack))
+            # the other input form: the decoder is handed the bytearray pack() returns (followed by neighbouring octets), and the
+            # caller's buffer is reused afterwards - what was decoded from it is a value, not a view of that buffer
+            buf = bytearray(ref) + bytearray(b"\xa5" * 3)
+            v = m.PusTc.unpack(buf)
+            for i in range(len(buf)):
+                buf[i] ^= 0xFF
+            if observe(v) != exp or bytes(v.pack()) != ref or not v == tc:
+                bad("decode/PusTc.unpack(bytearray)/fields-after-the-buffer-was-reused", [short(x) if isinstance(x, (bytes, bytearray)) else x for x in observe(v)],
+                    [short(x) if isinstance(x, bytes) else x for x in exp])
             hold("PusTcDataFieldHeader.unpack", sh, keep_hdr)
             hold("PusTc.from_sp_header", a, keep_obs)
             hold("PusTc.from_composite_fields", b, keep_obs)
@@ -319,6 +351,45 @@ def check_reject(rec: Rec, buf: bytes, total: int, nontrivial: bool):
 def looks_pus_c(buf):
     return len(buf) > 6 and buf[6] >> 4 == RP.PUS_C
 
+
+
+# ---------------------------------------------------- entry-point forms: omitted keyword arguments
+OPTIONAL = ("apid", "app_data", "seq_count", "source_id", "ack_flags")  # documented defaults: 0, b"", 0, 0, 0b1111
+DEFAULTS = {"apid": 0, "app_data": b"", "seq_count": 0, "source_id": 0, "ack_flags": 0b1111}
+
+
+def check_defaults(rec: Rec, k, mask, rnd, keeper=None):
+    """PusTc(service, subservice, <the optional arguments selected by mask>): the omitted ones take the documented default"""
+    m = _tc()
+    given = dict(zip(AXES + ("app_data",), background(k) + (BG_DATA[k] or b"\x0d",)))
+    if given["ack_flags"] == 0b1111:
+        given["ack_flags"] = 0b1001
+    case = {"kind": "defaults", "k": k, "mask": mask, "round": rnd}
+    kw = {n: given[n] for i, n in enumerate(OPTIONAL) if mask >> i & 1}
+    full = dict(DEFAULTS, **kw)
+    ref = RP.tc(given["service"], given["subservice"], full["apid"], full["seq_count"], full["source_id"], full["ack_flags"], full["app_data"])
+    rec.case(rnd == 0 and not (mask == 31 and k < 8), ops=4)  # all five given = a vector of the sweeps; second round = same vectors again
+    try:
+        tc = m.PusTc(given["service"], given["subservice"], **kw)
+        raw_obj = tc.pack()
+        if bytes(raw_obj) != ref:
+            rec.violation("C02.encode/PusTc(omitted-arguments)/octets/" + _region(bytes(raw_obj), ref), case, bytes(raw_obj), ref,
+                          repro="PusTc(%d, %d, **%r).pack()" % (given["service"], given["subservice"], kw))
+        else:
+            u = m.PusTc.unpack(ref)
+            exp = (given["service"], given["subservice"], full["apid"], full["seq_count"], full["source_id"], full["ack_flags"], full["app_data"])
+            if observe(u)[:7] != exp or observe(tc)[:7] != exp or not (u == tc and tc == u) or bytes(tc.to_space_packet().pack()) != ref:
+                rec.violation("C02.encode/PusTc(omitted-arguments)/fields", case, [observe(tc)[:7], observe(u)[:7]], exp)
+            if keeper is not None:
+                keeper.hold("PusTc.pack", raw_obj, bytes, case)
+                keeper.hold("PusTc()", tc, keep_obs, case)
+                keeper.hold("PusTc.unpack", u, keep_obs, case)
+        rec.outcome("defaults-ok/%d-omitted" % (5 - bin(mask).count("1")))
+    except Exception as e:
+        rec.violation("C02.encode/PusTc(omitted-arguments)/exception/" + type(e).__name__, case, repr(e), ref)
+    finally:
+        if keeper is not None:
+            keeper.recheck(case)
 
 
 # ------------------------------------------------------------------- histories (engine H)
@@ -555,6 +626,24 @@ def run_shard(item):
                 rec.count("shaped_payloads")
     elif kind == "history":
         run_histories(rec, item)
+    elif kind == "defaults":
+        keeper = Keeper(rec, PROPERTY, depth=6)
+        for rnd in range(2):  # the second round shows a default value that the first round's use has changed
+            for k in range(item["k"]):
+                for mask in range(32):
+                    check_defaults(rec, k, mask, rnd, keeper)
+        rec.count("omitted_argument_forms", 32 * item["k"])
+    elif kind == "len-x-edge":
+        axis = item["axis"]
+        keeper = Keeper(rec, PROPERTY, depth=keep_depth(False, True))
+        for L in LENGTHS:
+            shapes = range(len(D.shaped(L))) if L <= 1024 else [2]  # the two largest that fit: incrementing content only
+            for idx in shapes:
+                for v in D.edge(BITS[axis]):
+                    bg = background(0)
+                    # value 0 of this axis under this length is background 0 itself = a vector of the lengths shard (bg 0)
+                    check_tc(rec, bg[:axis] + (v,) + bg[axis + 1:], ("shaped", L, idx), nontrivial=v != bg[axis], keeper=keeper)
+                    rec.count("length_x_edge_vectors")
     elif kind == "oversize":
         for L in OVERSIZE:
             for idx in range(len(D.shaped(L))):
@@ -608,6 +697,8 @@ def replay(case):
     case = unhex(case)
     if case["kind"] == "tc":
         check_tc(rec, tuple(case["f"]), tuple(case["data"]), routes=True, deep=True)
+    elif case["kind"] == "defaults":
+        check_defaults(rec, case["k"], case["mask"], case["round"])
     elif case["kind"] == "history":
         run_history(rec, case["k"], case["mode"], list(case["events"]))
     elif case["kind"] == "oversize":
@@ -623,5 +714,8 @@ def finalize(tier, agg):
         "per_axis_values_swept": {a: "%d/%d" % (c.get("sweep_values_" + a, 0) // 1, 1 << n) for a, n in zip(AXES, BITS)},
         "backgrounds": _k(tier),
         "deviation_bound": "d=1 full alphabets in K backgrounds; d=6 over edge alphabets (full product)",
+        "histories": {"depth": h_depth(tier), "event_menu": H_EVENTS, "start_states": H_MODES, "executed": c.get("histories_depth_%d" % h_depth(tier), 0),
+                      "states": c.get("history_states", 0), "transitions": c.get("history_events_applied", 0)},
+        "independence": {"results_held": c.get("independence_results_held", 0), "reobservations": c.get("independence_reobservations", 0)},
         "observed_outcomes": sorted(agg["outcomes"])[:40],
     }
